@@ -491,6 +491,18 @@ def check_atom_route(ctx, spec):
     ng.compare_outputs("c03:atom-route:default-wavelength", sld, comp, rho, [1.798], case, tag, outputs=OUTPUTS[:3])
     got = ng.flatten(pt.neutron_scattering(atom))
     ng.compare_outputs("c03:compound:default-wavelength", got, comp, rho, [1.798], case, tag)
+    # the neutron record itself, duplicated (copy / deepcopy / pickle round trip), answers like the original
+    import copy
+    import pickle
+    for how, dup in (("copy", copy.copy), ("deepcopy", copy.deepcopy), ("pickle", lambda x: pickle.loads(pickle.dumps(x)))):
+        try:
+            rec = dup(atom.neutron)
+        except Exception as e:  # noqa
+            raise Violation("c03:record-%s:raises" % how, "%s of %s.neutron raised %s: %s" % (how, atom, type(e).__name__, e), case)
+        got = ng.flatten(rec.scattering(wavelength=lams))
+        ng.compare_outputs("c03:record-%s:scattering" % how, got, comp, rho, lams, case, tag)
+        sld = dict(zip(OUTPUTS[:3], rec.sld(wavelength=lams[-1])))
+        ng.compare_outputs("c03:record-%s:sld" % how, sld, comp, rho, [lams[-1]], case, tag, outputs=OUTPUTS[:3])
 
 
 def check_table(ctx, spec):
